@@ -6,7 +6,7 @@ import ast
 import re
 
 from ..cfg import cfg_of
-from ..core import AnalysisError, ClassInfo, FuncInfo, call_name, dotted, unparse, walk_no_nested
+from ..core import seq, AnalysisError, ClassInfo, FuncInfo, call_name, dotted, unparse, walk_no_nested
 from ..packs import ecc
 from ..report import Ctx
 from ..sigtemplate import AttrRoles
@@ -113,7 +113,7 @@ def audit_descends(prog, c: ClassInfo, f: FuncInfo) -> tuple[bool, str]:
         for node, fed, kind in reach:
             if cfg.dominates(cfg.node_of(node), cfg.node_of(r)) and fed[:2] == names[:2]:
                 # nothing re-initialises the accumulators in between
-                reinit = [a for a in walk_no_nested(f.node) if isinstance(a, ast.Assign) and a is not node and any(unparse(t) in names for t in a.targets) and a.lineno > node.lineno and isinstance(a.value, (ast.List, ast.Tuple))]
+                reinit = [a for a in walk_no_nested(f.node) if isinstance(a, ast.Assign) and a is not node and any(unparse(t) in names for t in a.targets) and seq(a) > seq(node) and isinstance(a.value, (ast.List, ast.Tuple))]
                 if not reinit:
                     good = True
         if not good:
@@ -338,7 +338,7 @@ if not _OK:
                 continue
             for n in walk_no_nested(f.node):
                 if isinstance(n, ast.Return) and n.value is not None and unparse(n.value).startswith(('True', '(True')):
-                    inside = [lp for lp in walk_no_nested(f.node) if isinstance(lp, (ast.For, ast.While)) and lp.lineno < n.lineno <= lp.end_lineno]
+                    inside = [lp for lp in walk_no_nested(f.node) if isinstance(lp, (ast.For, ast.While)) and any(x is n for x in ast.walk(lp))]
                     ctx.add('C12.R5', f'{c.name}.{f.name}:verdict', not inside, (f.file, n.lineno), 'the positive verdict is issued after all loops have finished' if not inside else 'a positive verdict is returned from inside a loop: later elements are never examined', 'verdict')
     cp = prog.func('nests', 'NestsForNestedLogit.check_partition')
     ok = body_is(cp.body, """
